@@ -445,6 +445,8 @@ def gen_groups(rng, size):
                 n = int(rng.integers(1, 4))
             elif size == 'small':
                 n = int(rng.integers(1, 25))
+            elif size == 'huge':
+                n = int(rng.integers(400, 1500))
             else:
                 n = int(rng.integers(25, 400))
             mode = ['uniform', 'decoder', 'allfail', 'allok', 'dense'][int(rng.choice(5, p=[.4, .3, .1, .1, .1]))]
@@ -531,7 +533,9 @@ def correspondence(ctx):
             # the expected verdict is 'ok'; what is compared is the model's verdict on the implementation's floats
             rates.add(op, exp, {'spec': spec, 'row': list(key), 'columns': kind}, tag=kind)
 
-    n_tiny, n_small, n_big = (60, 60, 6) if ctx.thorough else (18, 22, 2)
+    n_tiny, n_small, n_big = (150, 150, 20) if ctx.thorough else (18, 22, 2)
+    for _ in range(6 if ctx.thorough else 0):
+        one(gen_scenario(rng, 'huge')[0], 'huge')
     for _ in range(n_tiny):
         one(gen_scenario(rng, 'tiny')[0], 'tiny')
     for _ in range(n_small):
